@@ -8,6 +8,8 @@ BUDGET_SCALE = {}
 
 LEVEL = {
     'C01': 'exploration',
+    'C02': 'fault_enumeration',
+    'C14': 'fault_enumeration',
 }
 
 ASSUMPTIONS = [
@@ -34,7 +36,32 @@ def nt_serve_and_exec(stats):
         stats.get('builds', 0) > 1
 
 
+def nt_rollback_restored(stats):
+    return stats.get('rollbacks', 0) > 0 and stats.get('commits', 0) > 0
+
+
 CAMPAIGNS = {
+    'C02': [
+        {'name': 'c02-crash-sweep', 'profile': 'C01', 'mode': 'crash-sweep',
+         'nontrivial': nt_rollback_restored, 'weight': 1.0, 'chunk': 6,
+         'sweep_max': {'quick': 16, 'thorough': None}, 'follow': 1,
+         'params': {'p_mutate_step': 0.4, 'p_tamper': 0.5},
+         'rule': 'generic histories; the last build is re-run from the '
+                 'restored pre-state with a CrashError at every raise '
+                 'opportunity (quick: <=16 evenly spaced incl. both ends), '
+                 'then the un-faulted continuation must equal the baseline'},
+    ],
+    'C14': [
+        {'name': 'c14-oserror-sweep', 'profile': 'C01',
+         'mode': 'oserror-sweep', 'nontrivial': nt_rollback_restored,
+         'weight': 1.0, 'chunk': 6, 'follow': 1,
+         'sweep_max': {'quick': 16, 'thorough': None},
+         'params': {'p_mutate_step': 0.4, 'p_tamper': 0.5, 'p_catch': 0.8},
+         'rule': 'generic histories; the last build is re-run from the '
+                 'restored pre-state with an OSError at every pre-commit '
+                 'mutating call index (mkdtemp/mkdir/makedirs/rename/rmdir/'
+                 'remove/cache open, write, close) plus torn cache writes'},
+    ],
     'C01': [
         {'name': 'c01-generic', 'profile': 'C01', 'mode': 'plain',
          'nontrivial': nt_serve_and_exec, 'weight': 1.0,
@@ -63,17 +90,19 @@ def summarize(sc):
         'roots': sc['roots'],
         'funcs': {k: v['variants'] for k, v in sorted(sc['funcs'].items())},
         'steps': sc['steps'],
+        'mode': sc.get('mode', 'plain'),
+        'fault_step': sc.get('fault_step'), 'sweep': sc.get('sweep'),
     }
 
 
 def run_any(sc):
     mode = sc.get('mode', 'plain')
-    if mode == 'plain':
+    if mode in ('plain', 'fault'):
         return run_scenario(sc)
     raise ValueError('unknown scenario mode %r' % (mode,))
 
 
-def run_case(camp, seed):
+def run_case(camp, seed, tier='quick'):
     sc = gen.generate(camp['profile'], seed, camp.get('params'))
     post = camp.get('post')
     if post is not None:
@@ -85,6 +114,29 @@ def run_case(camp, seed):
     if mode == 'plain':
         res = run_scenario(sc)
         _account(out, sc, res, camp)
+    elif mode in ('crash-sweep', 'oserror-sweep'):
+        builds = [i for i, s in enumerate(sc['steps']) if s['op'] == 'build']
+        pick = camp.get('fault_step', 'last')
+        fs = builds[-1] if pick == 'last' else builds[seed % len(builds)]
+        sc['mode'] = 'fault'
+        sc['fault_step'] = fs
+        sc['follow'] = camp.get('follow', 1)
+        sc['sweep'] = 'crash' if mode == 'crash-sweep' else 'oserror'
+        cap = camp.get('sweep_max', {}).get(tier)
+        if cap is not None:
+            sc['sweep_max'] = cap
+        if mode == 'oserror-sweep':
+            sc['errnos'] = camp.get('errnos', ['ENOSPC', 'EACCES', 'EIO'])
+            sc['torn'] = camp.get('torn', True)
+        res = run_scenario(sc)
+        if res['verdict'] == 'violation' and res.get('fault') is not None:
+            # the replayable form carries the one fault that failed
+            sc = dict(sc)
+            sc.pop('sweep', None)
+            sc.pop('sweep_max', None)
+            sc['fault'] = res['fault']
+        _account(out, sc, res, camp)
+        out['runs'] += res.get('runs', 1) - 1
     else:
         raise ValueError(mode)
     if seed % 97 == 0:
